@@ -4,6 +4,7 @@
 // failing (mode single) or the k-th and every later call failing (mode persistent), each in
 // its own forked child whose LAST atexit handler checks that no library allocation is left.
 #include "pbt.h"
+#include <openssl/aes.h>
 #include "simk.h"
 #include "allocwrap.h"
 #include "shim.h"
@@ -1020,6 +1021,84 @@ static void sc_addr(const Case &c) {
   }
 }
 
+// ------------------------------------------------------------------ AES key objects and AES-CTR streams
+// Every run is a fresh process, so the first AES operation also runs the accelerated path's start-up self-test -- under the fault.
+static void ref_aes_block(const std::string &key, const uint8_t in[16], uint8_t out[16]) {
+  AES_KEY k;
+  AES_set_encrypt_key((const unsigned char *)key.data(), (int)key.size() * 8, &k);
+  AES_encrypt(in, out, &k);
+}
+static void sc_aes(const Case &c) {
+  struct KeyObj {
+    std::string raw;
+    void *k = nullptr;
+  };
+  std::vector<KeyObj> keys;
+  for (auto &op : c) {
+    if (!VV->ok) break;
+    auto A = [&](size_t i) -> int64_t { return i < op.a.size() ? op.a[i] : 0; };
+    if (op.k == "exp" && keys.size() < 6) {
+      KeyObj ko;
+      ko.raw = prbytes((uint64_t)A(1) + 99, (A(0) & 1) ? 32 : 16);
+      {
+        OpScope sc;
+        ko.k = s_aes_expand((const uint8_t *)ko.raw.data(), ko.raw.size());
+        if (!ko.k) MUST_BE_INJECTED(sc, "crypto_aes_key_expand");
+      }
+      if (!ko.k && !aw::S().persistent && VV->ok) {  // the same expansion can be made again
+        OpScope sc;
+        ko.k = s_aes_expand((const uint8_t *)ko.raw.data(), ko.raw.size());
+        if (!ko.k) VV->fail("retry-refused", "crypto_aes_key_expand failed again although the allocator had recovered");
+      }
+      if (ko.k) keys.push_back(ko);
+    } else if (op.k == "blk" && !keys.empty()) {
+      KeyObj &ko = keys[(size_t)(((A(0) % (int64_t)keys.size()) + (int64_t)keys.size()) % (int64_t)keys.size())];
+      std::string in = prbytes((uint64_t)A(1), 16);
+      uint8_t got[16], want[16];
+      {
+        OpScope sc;
+        s_aes_block(ko.k, (const uint8_t *)in.data(), got);
+      }
+      ref_aes_block(ko.raw, (const uint8_t *)in.data(), want);
+      if (memcmp(got, want, 16) != 0) VV->fail("aes-block-wrong", "crypto_aes_encrypt_block with a key object obtained earlier in this process gives a wrong block");
+    } else if (op.k == "ctr" && !keys.empty()) {
+      KeyObj &ko = keys[(size_t)(((A(0) % (int64_t)keys.size()) + (int64_t)keys.size()) % (int64_t)keys.size())];
+      size_t len = (size_t)std::min<int64_t>(std::max<int64_t>(A(1), 0), 200);
+      uint64_t nonce = (uint64_t)A(2);
+      void *st;
+      {
+        OpScope sc;
+        st = s_ctr_init(ko.k, nonce);
+        if (!st) MUST_BE_INJECTED(sc, "crypto_aesctr_init");
+      }
+      if (!st) continue;
+      std::string in = prbytes((uint64_t)A(1) * 7 + 1, len), got(len, 0), want(len, 0);
+      {
+        OpScope sc;
+        s_ctr_stream(st, (const uint8_t *)in.data(), (uint8_t *)&got[0], len);
+        s_ctr_free(st);
+      }
+      for (size_t off = 0; off < len; off += 16) {
+        uint8_t ctr[16], ks[16];
+        for (int i = 0; i < 8; i++) ctr[i] = (uint8_t)(nonce >> (56 - 8 * i));
+        for (int i = 0; i < 8; i++) ctr[8 + i] = (uint8_t)((uint64_t)(off / 16) >> (56 - 8 * i));
+        ref_aes_block(ko.raw, ctr, ks);
+        for (size_t j = 0; j < 16 && off + j < len; j++) want[off + j] = (char)(in[off + j] ^ ks[j]);
+      }
+      if (got != want) VV->fail("aesctr-wrong", "AES-CTR with a key object obtained earlier in this process gives wrong output");
+    } else if (op.k == "free" && !keys.empty()) {
+      size_t i = (size_t)(((A(0) % (int64_t)keys.size()) + (int64_t)keys.size()) % (int64_t)keys.size());
+      OpScope sc;
+      s_aes_free(keys[i].k);
+      keys.erase(keys.begin() + (long)i);
+    }
+  }
+  for (auto &ko : keys) {
+    OpScope sc;
+    s_aes_free(ko.k);
+  }
+}
+
 // ------------------------------------------------------------------ fault enumeration driver
 typedef void (*Scenario)(const Case &);
 struct ChildRes {
@@ -1224,6 +1303,8 @@ int main(int argc, char **argv) {
      [](int) { return gen_ops({{2, "rinit"}, {3, "wait"}, {2, "winit"}, {3, "write"}, {4, "run"}}, 16, 9000); }, sc_netbuf);
   mk("addr", "sock_resolve of IPv4/IPv6/Unix literals, sock_addr_dup/serialize/deserialize/prettyprint (asprintf) and humansize (asprintf).",
      [](int) { return gen_ops({{5, "addr"}, {2, "human"}}, 8, 9); }, sc_addr);
+  mk("aes", "AES key expansions (128/256), block encryptions, AES-CTR streams and frees; outputs are compared with OpenSSL's AES (a key object obtained while an allocation failed must still be right).",
+     [](int) { return gen_ops({{4, "exp"}, {4, "blk"}, {4, "ctr"}, {1, "free"}}, 12, 200); }, sc_aes);
   mk("http", "one http_request (4 headers, body) answered by a scripted response (interim 1xx, Content-Length or chunked, body 0..20000, limit at or above); the request is released by cancel unless it completed or died inside the loop.",
      [](int) {
        return rc::gen::exec([]() {
